@@ -108,6 +108,48 @@ def mixed_unitness(ctx, problems):
         ctx.case(key=("mixed", a, b, x), nontrivial=True, kind="mixed-unitness", sample=rec)
 
 
+def mixed_shapes(ctx, problems):
+    """separable, analytically invertible WCSs: the world coordinates of one call have different (broadcastable) shapes per axis"""
+    import astropy.units as u
+    from astropy.modeling import models
+    from astropy.time import Time
+    from gwcs import wcs, coordinate_frames as cf
+    rng = ctx.rng
+    for k in range(8 if ctx.quick else 80):
+        n = rng.choice([2, 3])
+        sh, sc = [rng.uniform(-5, 5) for _ in range(n)], [rng.choice([0.5, 2.0, -1.5]) for _ in range(n)]
+        t1, t2 = models.Shift(sh[0]), models.Scale(sc[0])
+        for i in range(1, n):
+            t1, t2 = t1 & models.Shift(sh[i]), t2 & models.Scale(sc[i])
+        det = cf.CoordinateFrame(n, ("PIXEL",) * n, tuple(range(n)), unit=(u.pix,) * n, name="detector")
+        subs = [cf.SpectralFrame(axes_order=(0,), unit=(u.um,), name="wave"),
+                cf.TemporalFrame(Time("2020-01-01T00:00:00"), axes_order=(1,), unit=(u.s,), name="time")]
+        if n == 3:
+            subs.append(cf.CoordinateFrame(1, ("SPATIAL",), (2,), unit=(u.m,), name="gen", axes_names=("g",)))
+        mid = cf.CoordinateFrame(n, ("SPATIAL",) * n, tuple(range(n)), unit=(u.one,) * n, name="mid")
+        w = wcs.WCS([(det, t1), (mid, t2), (cf.CompositeFrame(subs, name="world"), None)])
+        shapes = rng.choice([[(), (4,)], [(4,), ()], [(2, 1), (3,)], [(1,), (5,)], [(3, 1), (1, 4)]])
+        shapes = list(shapes) + [()] * (n - 2)
+        rng.shuffle(shapes)
+        pix = [np.array(rng.uniform(0, 50)) if s_ == () else np.array([rng.uniform(0, 50) for _ in range(int(np.prod(s_)))]).reshape(s_)
+               for s_ in shapes]
+        rec = dict(shifts=sh, scales=sc, shapes=[list(s_) for s_ in shapes], pixel=[p.tolist() for p in pix])
+        ctx.case(key=("shapes", str(rec)), nontrivial=True, kind=f"mixed-shapes/{n}", sample=rec)
+        try:
+            world = w(*pix)
+            back = w.invert(*world)
+        except Exception as e:  # noqa
+            problems.append((f"[mixed shapes] invert of world coordinates with per-axis shapes {rec['shapes']} raised {type(e).__name__}: "
+                             f"{str(e)[:100]} (analytic, separable inverse)", rec))
+            continue
+        want = np.broadcast_arrays(*pix)
+        for i in range(n):
+            b = np.asarray(back[i], dtype=float)
+            if not (np.allclose(np.broadcast_to(b, want[i].shape), want[i], rtol=0, atol=1e-9)):
+                problems.append((f"[mixed shapes] invert(forward(pixel)) axis {i} = {b.tolist()} for pixel {rec['pixel']}", rec))
+                break
+
+
 def run(ctx):
     from lib import pins
     from py2coq import gen_pipeline as G, t2
@@ -216,6 +258,7 @@ def run(ctx):
             meta.append((phase, n, k, pt))
     numeric_family(ctx, problems)
     mixed_unitness(ctx, problems)
+    mixed_shapes(ctx, problems)
     checker = "(fun c => match c with (w, tab, x, e) => agrees tab (m_backward_transform w) x e end)"
     failing = ctx.coq_failing("cases", HEADER, terms, checker, label="WC01") if gen_src is not None else None
     ctx.oblige("correspondence: model backward transform (vm_compute) = implementation, fresh and after in-place edits",
